@@ -14,6 +14,11 @@ CHECKS = {
          "For each subject circuit (arithmetic+range+boolean+equality assertions, Poseidon+Merkle membership, two lookup tables, random access+exponentiation+extension arithmetic; thorough adds base-sum/division and extension-division circuits and 10 configurations incl. 1/3 challenges, quotient factors 7/16, 25/136 routed wires, zero-knowledge) and each satisfying base input: every target index (all rows x all routed and advice columns incl. padding and public-input rows, and every virtual target incl. public inputs) is corrupted individually with copy classes broken, every copy class is corrupted consistently, and the prover is driven with: lenient quotient truncation, all-zero and constant permutation accumulator, quotient perturbed for each challenge index, chosen proof-of-work witnesses, lenient lookup multiplicities - alone and combined with corruptions. Whatever the real proving API emits is handed to the real verifier; acceptance must coincide exactly with sat(assignment) (gate constraints from committed constants, copy classes, public-input hash binding, combinatorial lookup predicate) and never occur under a degenerate strategy. Unconstrained cells must still be accepted (no-false-alarm half).",
          "trusted: the gates' own eval_unfiltered inside sat (C07 checks the gates), harness restatement of lookup padding, Poseidon reference; rejection of a false quotient identity holds except with probability ~2^-110 independent of FRI parameters",
          "DESIGN.md §4 C02"),
+ "C03": ("fault_enumeration",
+         "exhaustive single-element fault enumeration over the serde tree of accepted proofs (every leaf x value mutations, every list/map node x structural mutations, plain and compressed form, every other circuit's verifier data), plus the FRI part under fixed challenges",
+         "For accepted proofs of the subject circuits (incl. lookups, salted zero-knowledge oracles, Keccak, arity-2 and arity-4 FRI schedules with several reduction steps; configurations meeting the verdict floor q*log2(lde) >= 40): EVERY numeric leaf of the proof tree (caps, all openings, every query round's leaves, salts, siblings, coset evaluations, commit-phase caps, final polynomial, pow witness, public inputs) is changed and the real verifier must reject; every list node is dropped-from / emptied / duplicated / swapped / extended; the same on the compressed proof through verify_compressed, where the redundant `indices` list must leave the verdict unchanged; each proof is presented with every other circuit's verifier data, verifier-only data and common data; and every FRI-part / cap / opening leaf is re-checked under the honest proof's FIXED challenges through verify_fri_proof so that an element no algebraic check reads cannot hide behind Fiat-Shamir re-randomisation.",
+         "trusted: serde round trip of proof types (exact u64); chance acceptance bounded by the verdict floor; single-element edits only",
+         "DESIGN.md §4 C03"),
  "C13": ("model_checking",
          "explicit-state exploration of the challenger state machine (all observe/get sequences up to a depth) against a reference duplex-sponge model, step-by-step conformance on the real Challenger / RecursiveChallenger; bounded exhaustive state enumeration for the permutation layers against textbook Poseidon",
          "Every optimised Poseidon layer and the full permutation on 3^12 uniform-extreme states, all <=2-lane deviations over the representation alphabet from three base states and uniform/single-lane states, against a textbook round-by-round Poseidon on u128 arithmetic (anchored on the published test vectors); all message lengths 0..=40 x output counts for the sponge/compression functions; the challenger explored as a transition system: every sequence in {observe, get}^<=d (Poseidon and Keccak permutations) plus macro-operations, each step compared with a list-based duplex model, and every sequence up to a smaller depth replayed on the in-circuit RecursiveChallenger. Run in the checked profile.",
